@@ -22,7 +22,9 @@ META = {
         "queued; an injected message gets the tracker's fresh ID; a forwarded one gets the C04 translation of its ID; "
         "every ack it carries afterwards is the inverse translation of a non-injected ack it carried before (so, by "
         "C04's inverse law, an ID the receiving endpoint itself issued), every non-injected ack survives, order is "
-        "kept, the ACK flag agrees with the ack list; ProxiedCircuit.drop_message - raises exactly when finalized, "
+        "kept, the ACK flag agrees with the ack list; the body of every forwarded explicit PacketAck (and of nothing else) is handed to "
+        "_rewrite_packet_ack exactly once whatever acks it carries appended, and the message is withheld iff that rewrite left it empty "
+        "and no appended ack survives; ProxiedCircuit.drop_message - raises exactly when finalized, "
         "acks a reliable packet towards its sender exactly once and forwards its non-injected piggy-backed acks in one "
         "separate PacketAck in the original direction, and nothing else; Message.take typestate; Circuit.prepare_message "
         "issues strictly increasing IDs; track_reliable. ProxiedCircuit._rewrite_packet_ack (explicit PacketAck): per acknowledged ID, withheld iff it acknowledges a proxy-injected packet, otherwise forwarded in its own block as the endpoint's own ID (InjectionTracker.get_original_id, C04), never raising; an emptied PacketAck is reported to the caller. B (bounded, labelled): exactly-once delivery of acks across "
@@ -60,7 +62,8 @@ def register(reg):
                               params={"message": "Obj:Message", "reverse_injections": "Obj:InjectionTracker",
                                       "fwd_injections": "Obj:InjectionTracker"},
                               param_names=["message", "reverse_injections" if ret else "fwd_injections"],
-                              returns=ret, frame=[], doc="touches only message blocks (unmodelled); bounded tier decides it"))
+                              returns=ret, frame=[], record_as=("rewrite_ack" if ret else "rewrite_ping"),
+                              doc="touches only message blocks (unmodelled); bounded tier decides it"))
     reg.add_fn(FnContract(key="hippolyzer.lib.base.message.circuit:Circuit.send_acks", relpath=CIRC_REL,
                           qualname="Circuit.send_acks", cls="Circuit", prop=PID, verify=False, use_wf=False,
                           params={"to_ack": "IntList", "direction": "Dir", "packet_id": "Opt[Int]"},
@@ -89,6 +92,12 @@ def register(reg):
     ens += both_dirs("implies(" + forwarded + ", " + ACK_COMPLETE + ")")
     ens += ["implies(not is_none(old(message.packet_id)) and old(message.synthetic), "
             "message.packet_id == old(message.packet_id) and message.acks == old(message.acks))"]
+    # the body of every forwarded explicit PacketAck is rewritten - whatever acks it carries appended - and of nothing else; it is
+    # withheld exactly when the rewrite left it empty and it carries no appended acks either
+    ens += ["implies(" + forwarded + " and message.name == 'PacketAck', ncalls('rewrite_ack') == 1 and "
+            "called_with('rewrite_ack', lambda message_, result_: message_ == message and iff(not result, not result_ and len(message.acks) == 0)))",
+            "implies(not (" + forwarded + " and message.name == 'PacketAck'), ncalls('rewrite_ack') == 0 and result)",
+            "implies(" + forwarded + " and message.name == 'StartPingCheck', ncalls('rewrite_ping') == 1)"]
     reg.add_fn(FnContract(
         key=f"{MOD}:ProxiedCircuit.prepare_message", relpath=REL, qualname="ProxiedCircuit.prepare_message",
         cls="ProxiedCircuit", prop=PID, params={"message": "Obj:Message"}, param_names=["message"], returns="Bool",
